@@ -1206,6 +1206,33 @@ Example C06_examples :
     = SOk (ADict [(AStr 7, AInt 1); (AStr 0, AInt 0)]).
 Proof. vm_compute. repeat split. Qed.
 
+(* ---------------- `_insert` without `_index` (seed C06-F1) ---------------- *)
+
+Definition ah_set_insert (h : ahargs) (b : bool) : ahargs :=
+  mkah (ah_pos h) (ah_inplace h) (ah_if h) (ah_index h) b (ah_by_index h) (ah_kw h) (ah_kwfn h) (ah_fn h).
+
+(* with_<item>(x, _insert=b) WITHOUT `_index`: the flag is immaterial (it only selects between
+   "replace at index" and "insert before index"); on a list the prepared element is appended.
+   Specification (first two conjuncts) and executable model (last two: nothing is extracted when
+   no index is given, and the inserter appends on the index None whatever the flag says). *)
+Theorem C06_insert_flag_without_index_appends :
+  (forall ct h0 sp c h b, a_is_missing (ah_index h) = true ->
+     spec_with_item ct h0 sp c (ah_set_insert h b) = spec_with_item ct h0 sp c h) /\
+  (forall ct h0 sp t xs h, a_ty sp = TList t -> a_is_missing (ah_index h) = true ->
+     spec_with_item ct h0 sp (AList xs) h =
+     sbind (elem_pipeline ct h0 sp AMissing (apos0 h) true (ah_kw h) None [])
+           (fun e => SOk (AList (xs ++ [e])))) /\
+  (forall ct sp coll r bi, seq_extractor ct sp coll VMissing r bi = ret (VNone, VMissing)) /\
+  (forall ct sp coll item b, seq_inserter ct sp coll VNone item b = seq_inserter ct sp coll VNone item false).
+Proof.
+  split; [|split; [|split]].
+  - intros. unfold spec_with_item, apos0, apos1, ah_set_insert. cbn [ah_pos ah_index ah_insert ah_kw].
+    rewrite H. reflexivity.
+  - intros. unfold spec_with_item. rewrite H, H0. reflexivity.
+  - intros. unfold seq_extractor. destruct (is_missing coll); reflexivity.
+  - intros. unfold seq_inserter. reflexivity.
+Qed.
+
 Print Assumptions C06_append.
 Print Assumptions C06_replace_at.
 Print Assumptions C06_insert_before.
@@ -1251,3 +1278,4 @@ Print Assumptions C06_copy_history_example.
 Print Assumptions C06_by_value_transforms_argument_refuted.
 Print Assumptions C06_by_value_transforms_argument_set_refuted.
 Print Assumptions C06_examples.
+Print Assumptions C06_insert_flag_without_index_appends.
